@@ -246,7 +246,6 @@ Definition resolve (ev : env) (r : ref) : outcome typeref :=
            end
        end.
 
-(* ------------------------------------------------------------------ topics *)
 (* ------------------------------------------------------------------ list methods *)
 (* service.go checkListMethod (fix cec4e3a): a method whose request holds a field of type
    j5.list.v1.QueryRequest - object reference written with that package, or with an import
@@ -295,6 +294,7 @@ Definition file_lists_ok (f : jfile) : bool :=
   | _ => true
   end.
 
+(* ------------------------------------------------------------------ topics *)
 Definition virt_prop (name : str) (pkg ty : str) : property :=
   Property name true false (FObjRef (mkRef pkg ty)).
 Definition virt_request : props :=
